@@ -236,7 +236,7 @@ pub fn check(prog: &Prog, kind: Kind, plan: &Plan, refrun: &RefRun, refnp: &RefR
         seen_seg_first.insert(&e.tag, true);
         match oev.get(&(e.ev, e.occ)) {
             Some(oe) if oe.pass_seq.is_some() => {
-                if *missing_in_group.get(&e.tag).unwrap_or(&false) {
+                if *missing_in_group.get(&e.tag).unwrap_or(&false) && evk != Some(EvKind::Mk) {
                     out.push(v("branch_order", evk, format!("event {}#{} ran although an earlier event of the same branch and step did not", e.ev, e.occ)));
                 }
                 if oe.dg != e.dg && nested_async_multi {
